@@ -38,6 +38,24 @@ pub fn stripe_generic<A: Alphabet, C: PositiveLength>(enc: &EncodedSequence<A>) 
     <Pipeline<A, _> as Stripe<A, C>>::stripe(&pli, enc)
 }
 
+/// A striped sequence built by hand over a matrix that is TALLER than the sequence needs
+/// (`extra` more rows than ceil(L/C)): legal for `StripedSequence::new`, whose stripe height is the
+/// matrix row count; symbol i sits at row i mod R, column i div R with R = rows.
+pub fn stripe_tall<A: Alphabet, C: PositiveLength>(s: &[u8], extra: usize) -> StripedSequence<A, C> {
+    let c = C::USIZE;
+    let r = (s.len() + c - 1) / c + extra;
+    let mut m = DenseMatrix::<A::Symbol, C>::new(r);
+    for row in 0..r {
+        for col in 0..c {
+            m[row][col] = A::default_symbol();
+        }
+    }
+    for (i, &x) in s.iter().enumerate() {
+        m[i % r][i / r] = sym::<A>(x);
+    }
+    StripedSequence::new(m, s.len()).expect("rows x columns >= length")
+}
+
 pub fn dense<A: Alphabet>(rows: &[Vec<f32>]) -> DenseMatrix<f32, A::K> {
     let mut m = DenseMatrix::<f32, A::K>::new(rows.len());
     for (i, r) in rows.iter().enumerate() {
